@@ -23,7 +23,7 @@ static void gen_ple(const GenCtx &ctx, Case &c, int viewpct) {
   }
   if (!naive) g::extreme_shape(ctx, m, n);
   c.set("m", m).set("n", n);
-  if (russian) c.set("k", g::rng(0, 8));
+  if (russian) c.set("k", g::rng(0, 9));  // seven tables: 7k <= 64
   else if (!naive) c.set("cutoff", g::cutoff());
   g::rankpat(c, "A", m, n);
   // trailing zero rows (first-zero-row truncation)
